@@ -41,6 +41,14 @@ R2  1, 3 (file-position typestate of csverif.cursor: seek/parse/read sites with 
     the two required facts; lemma L1), 6 (constant folding of the data-directory index), 5 (a parse through a selected
     struct type: one alternative per type of the code's own table / conditional expression; the position advances by the
     symbolic size of the parsed local, as for an if/else over two parses).
+    EXIT "compile stamp reported once the file header is parsed" (find_compile_stamps): 1 (the struct parses that come
+    after the IMAGE_FILE_HEADER parse; the handlers of the enclosing `try` that may catch their EOFError, lemma L10) +
+    2 (graph paths: the completed file header parse must not reach the point before such a parse - a CFG predecessor of
+    its statement - without passing a definition of the returned local from FILE.TimeDateStamp, when the handler leads to
+    a return of the pair past those definitions) + 3 (the first element of the returned pair traced to its
+    definitions; canonical FILE.TimeDateStamp).  Undecided when the first element is not a local defined by plain
+    assignments of None / FILE.TimeDateStamp.  The calls of one statement are ordered by evaluation (post-order), not by
+    source position, so a parse inside a seek argument - as left by an inlined helper - happens before the seek.
 R3  1, 3 (canonical summary of each scanner: search range, start term, header positions, e_lfanew facts, exception
     handlers - compared structurally), 2 + 5 (accepted machines, machine -> architecture and optional-header variant:
     three-valued evaluation of the dominating conditions per Machine value of the code's/reference vocabulary plus one
@@ -79,7 +87,18 @@ R5  precedence: 3 (path-wise value flow through BeaconConfig.version; the return
     reset elsewhere, when the reuse is conditional on other attributes, or when no such assignment exists (clients may
     still assign).
 R6  1, 3 (the reads that flow into the returned pair; positions and lengths as polynomials; accumulating loops and
-    `sum(..)` over the section table summarised once as a symbolic SUM atom - no unrolling), 2 + 4 (the prepend read is
+    `sum(..)` over the section table summarised once as a symbolic SUM atom - no unrolling; a position local with
+    several definitions is followed path-wise: one position polynomial per definition that reaches the seek - reaching
+    definitions, `x += E` outside a loop continued with the definitions reaching it, a plain assignment in the body of a
+    `for x in T` read with x = T[-1] (the definition that leaves the loop), a conditional expression split into its
+    branches - each judged on its own: it must be MZ + OPT.SizeOfHeaders + SUM, or MZ + OPT.SizeOfHeaders under the fact
+    "the table is empty"; an alternative that reads the section table only through entries selected by a constant
+    index (`T[-1].PointerToRawData + T[-1].SizeOfRawData`, `.. + T[0].SizeOfRawData`) is located and wrong: the end of
+    the image depends on every entry, the table is not ordered by file position), 2 (the facts of an alternative: the
+    branch edges dominating its definitions, plus the edge of an `if` that lies on all CFG paths carrying the definition
+    to the seek past the other definitions; the facts about the table are read as "empty" / "non-empty" / something
+    else by lemma L11; an alternative whose conditions are of another form, or that another table-dependent
+    definition can override, is undecided), 2 + 4 (the prepend read is
     dominated by a fact that excludes image base 0: nonzero/interval reasoning on the dominating facts, lemma L6),
     6 (DOS stub constants), find_magic_mz: 3 + 5 (path-wise value flow; cases: each of the two stubs found / not found -
     the outcomes of the code's own searches; lemmas L7, L8).
@@ -102,6 +121,10 @@ L9  every entry of the two version tables is a string of the table format (R4 ch
 L10 a raised exception is handled by an `except C` clause exactly when its class is a subclass of C; for builtin exception
     classes the hierarchy is CPython's (read from the `builtins` module of the checker's interpreter, no analysed code
     involved); anything else may be handled.
+L11 the number of section headers n (FILE.NumberOfSections, an unsigned field; the length of the table parsed with one
+    header per iteration) is >= 0: the truth value of the table, `len(T) > 0`, `n > 0`, `n >= 1`, `n != 0` each say
+    "non-empty", their negations / `n == 0` / `n <= 0` / `n < 1` say "empty"; a sum over an empty table is 0; `T[k]`
+    with a constant k (or `T[len(T) - 1]`, which is `T[-1]`) is one fixed entry and raises for an empty table.
 """
 
 from __future__ import annotations
@@ -145,7 +168,12 @@ def run(ctx):
         "typestate whose positions are canonicalised to polynomials over roles (DOS/FILE/OPT/SECTION parses, the image base "
         "MZ, the candidate index) checks that in each pe.find_* function the DOS header, signature, file header, optional "
         "header, section table, export directory, PE magic, prepend and append bytes are read at the position the format "
-        "prescribes and that the export section is the one whose virtual range contains the rva; the two scanners are "
+        "prescribes and that the export section is the one whose virtual range contains the rva; the end of the image "
+        "(where the stage append is read) is image base + SizeOfHeaders + the SizeOfRawData of every section table entry on "
+        "each way the position is computed (per reaching definition / branch of a conditional expression, the empty table "
+        "apart) - never the extent of one selected entry, the table not being ordered by file position; in "
+        "find_compile_stamps the compile stamp is taken right after the file header parse, so that no later header parse "
+        "whose EOFError is caught (truncated stage) can make the function report a pair without it; the two scanners are "
         "compared on a canonical summary (range, start, positions, e_lfanew constraint, accepted machines, EOF handling) and "
         "their machine handling is decided by case distinction over the Machine constants of the code and the reference "
         "plus one 'any other value' case; the two version tables are checked completely (shape of every value with an "
@@ -173,6 +201,8 @@ def run(ctx):
         "a version built in another way than from the two lookups / `.get` / `[]` / `or` on the two tables (string comparisons on the result, helper objects): undecided",
         "module-level tables that are modified after their definition (the display is taken as the table)",
         "exits from the candidate loop under conditions that are not on the candidate's DOS/file header, or in an exception handler that does not guard the file header parse: undecided",
+        "a compile stamp that is returned through something else than a local assigned None / FILE.TimeDateStamp (tuple unpacking, a container, a helper object): the truncation obligation is undecided",
+        "an image end that is computed in several ways (several definitions of the position local, conditional expressions) where one way is taken under conditions on the section table other than empty / non-empty, can be overridden by another table-dependent definition, or reads the table through something else than a sum or constant-index entries (max(..), helper calls): undecided",
         "a stored version that is reset elsewhere in the package, reused only under conditions on other attributes, or computed from attributes no package code assigns after construction: undecided",
         "stores other than instance attributes / the decorators cached_property, lru_cache, cache (dict caches, __dict__, getattr defaults): the returned value is then not recognised and the version obligations are undecided",
     ]
@@ -190,6 +220,9 @@ def run(ctx):
         "L8: a value >= 0 compared with an integer literal is decided by the literal's sign where that suffices, else both outcomes are followed",
         "L9: every version-table entry has the table format (R4), so it is a non-empty string different from 'Unknown': T.get(k) or d == T.get(k, d)",
         "L10: an exception is handled by `except C` exactly when its class is a subclass of C (builtin classes: CPython's hierarchy); anything else may be handled",
+        "L11: the section count (FILE.NumberOfSections / len of the parsed table) is unsigned: truthiness of the table, len > 0, n > 0, n >= 1, n != 0 all mean non-empty, their negations empty; a sum over an empty table is 0; T[k] for a constant k (T[len(T) - 1] is T[-1]) is one fixed entry and raises for an empty table",
+        "Python evaluates the callee expression and the arguments of a call before the call itself, left to right (order of the stream operations inside one statement)",
+        "a cstruct parse on the stream raises EOFError when the data ends inside the structure; seek and read do not",
         "the state of a freshly constructed BeaconConfig: an attribute has the single constant its constructor assigns (used as the first-access case of the version property)",
         "an instance attribute that some function of the package assigns outside the constructor can change between two accesses of the version property",
         "contract of the two lookups used by the precedence rule: from_pe_export_stamp(k) / from_max_setting_enum(k) is T.get(k, 'Unknown') (obligations `<table>.get(<argument>, 'Unknown')`)",
@@ -597,7 +630,32 @@ class _Walk(CursorWalk):
 
     def simple(self, st):
         n = len(self.sites)
-        super().simple(st)
+        # The base walk orders the calls of a statement by their end position in the source.  Nodes synthesised by the
+        # normaliser (an inlined helper, a forward-substituted temporary: `fh.seek(DOS(fh).e_lfanew + base)`) share one
+        # position, so the order is given here explicitly: a call completes after its callee expression and its arguments
+        # (post-order, left to right) - the parse inside a seek argument happens before the seek.
+        calls = []
+
+        def post(node):
+            for ch in ast.iter_child_nodes(node):
+                if not isinstance(ch, (ast.FunctionDef, ast.AsyncFunctionDef, ast.ClassDef, ast.Lambda)):
+                    post(ch)
+            if isinstance(node, ast.Call):
+                calls.append(node)
+
+        post(st)
+        saved = [(c, c.__dict__.get("end_lineno", _NOCONST), c.__dict__.get("end_col_offset", _NOCONST)) for c in calls]
+        try:
+            for i, c in enumerate(calls):
+                c.end_lineno, c.end_col_offset = 1, i + 1
+            super().simple(st)
+        finally:
+            for c, el, ec in saved:
+                for k, val in (("end_lineno", el), ("end_col_offset", ec)):
+                    if val is _NOCONST:
+                        c.__dict__.pop(k, None)
+                    else:
+                        setattr(c, k, val)
         new = self.sites[n:]
         if len(new) == 1 and new[0].kind == "parse" and id(new[0].node) in self.selected and new[0].pos is not None and new[0].var and new[0].count is None:
             self.pos = new[0].pos + SymPoly.atom(f"sizeof({new[0].var})")
@@ -1230,6 +1288,98 @@ def r2(ctx):
                     p = _poly(alt)
                     ctx.ob("R2", "CURSOR", f, "reported offset = position of the accepted DOS header", p == B, f"returns {p}; the accepted header was parsed at {B}", r)
     ctx.rep.count("pe_parse_sites", total, floor=16)
+    _r2_truncation(ctx)
+
+
+def _eof_handlers(ctx, f, st):
+    """Handlers that may catch the EOFError raised by a struct parse in statement `st` (lemma L10): the handlers of the
+    innermost enclosing `try` whose body contains the statement and that has a handler for EOFError / a base of it / an
+    unresolved class.  [] when the exception leaves the function."""
+    fv = FuncView.of(f.node)
+    eof = ast.Raise(exc=_nm("EOFError"), cause=None)
+    cur = st
+    while True:
+        par = fv.parent.get(id(cur))
+        if par is None or par is f.node:
+            return []
+        if isinstance(par, ast.Try) and any(cur is b for b in par.body) and par.handlers and _may_catch(par, eof):
+            out = []
+            for h in par.handlers:
+                one = ast.Try(body=[], handlers=[h], orelse=[], finalbody=[])
+                if _may_catch(one, eof):
+                    out.append(h)
+            return out
+        cur = par
+
+
+def _r2_truncation(ctx):
+    """EXIT: once the IMAGE_FILE_HEADER is parsed its TimeDateStamp is what find_compile_stamps reports as compile stamp,
+    also when a later header is cut short.  A struct parse that comes after the file header can raise EOFError; where a
+    handler of the function catches it and a return of the pair follows, the first element must already hold
+    FILE.TimeDateStamp: no CFG path leads from the completed file header parse to the point before such a parse without
+    passing a definition of the returned local from FILE.TimeDateStamp (devices 1, 2, 3)."""
+    f = ctx.repo.func("pe.find_compile_stamps")
+    text = "compile stamp reported once the file header is parsed"
+    v = _view(ctx, f)
+    cn, cfg, fv = v.cn, ctx.cfg(f), FuncView.of(f.node)
+    fsite = v.first("FILE")
+    fst = fv.stmt_of(fsite.node) if fsite is not None else None
+    if fst is None or not cfg.has(fst):
+        ctx.undecided("R2", "EXIT", f, text, "no IMAGE_FILE_HEADER parse on the stream is found in the function")
+        return
+    later = []
+    for s in v.parses:
+        st = fv.stmt_of(s.node)
+        if st is not None and st is not fst and cfg.has(st) and not any(st is x for x in later):
+            later.append(st)
+    bad, unknown, checked = [], [], 0
+    for r in cfg.return_stmts():
+        val = r.value if isinstance(r.value, ast.Tuple) else (cn.canon(r.value) if r.value is not None else None)
+        if not (isinstance(val, ast.Tuple) and len(val.elts) == 2):
+            continue
+        e0 = strip_cast(val.elts[0])
+        if _u(cn.canon(e0, full=True)) == "FILE.TimeDateStamp":
+            continue  # this return hands out the field itself
+        if is_none(e0):
+            defs, name = [], None
+        elif isinstance(e0, ast.Name) and e0.id not in cn.pars:
+            name = e0.id
+            all_defs = assignments_to(cn.fn, name)
+            if any(vv is None or not isinstance(d, (ast.Assign, ast.AnnAssign)) for d, vv in all_defs):
+                unknown.append(f"the first element `{name}` of a returned pair is not defined by plain assignments")
+                continue
+            defs = [d for d, vv in all_defs if _u(cn.canon(strip_cast(vv), full=True)) == "FILE.TimeDateStamp"]
+            other = [vv for d, vv in all_defs if not any(d is x for x in defs) and not is_none(vv)]
+            if other:
+                unknown.append(f"the first element of a returned pair is also defined as {_u(other[0])[:60]}")
+                continue
+        else:
+            unknown.append(f"the first element {_u(e0)[:60]} of a returned pair is neither a local nor FILE.TimeDateStamp")
+            continue
+        dn = [cfg.node(d) for d in defs if cfg.has(d)]
+        rn, fnode = cfg.node(r), cfg.node(fst)
+        for st in later:
+            hs = [h for h in _eof_handlers(ctx, f, st) if cfg.has(h) and (cfg.node(h) == rn or cfg.reaches(cfg.node(h), rn, avoiding=dn))]
+            if not hs:
+                continue  # the exception leaves the function, or the handler does not lead to this return
+            checked += 1
+            # the point before the parse: a predecessor of its statement that the completed file header parse reaches
+            # without the stamp having been taken
+            for pnode in cfg.g.predecessors(cfg.node(st)):
+                if pnode in dn:
+                    continue
+                if pnode == fnode or cfg.reaches(fnode, pnode, avoiding=dn):
+                    role = next((s.role for s in v.parses if fv.stmt_of(s.node) is st), "?")
+                    bad.append(f"the {role} parse can be reached from the completed IMAGE_FILE_HEADER parse before the first element of the returned pair "
+                               f"({_u(e0)}) is set from FILE.TimeDateStamp; when it raises EOFError the handler leads to `return {_u(r.value)[:50]}` and the compile stamp of the image is lost")
+                    break
+    if bad:
+        ctx.ob("R2", "EXIT", f, text, False, bad[0], fsite.node)
+    elif unknown:
+        ctx.undecided("R2", "EXIT", f, text, unknown[0], fsite.node)
+    else:
+        ctx.ob("R2", "EXIT", f, text, True, f"{len(later)} later struct parses: wherever their EOFError is caught and a pair is returned, the first element was set from FILE.TimeDateStamp "
+               "right after the file header parse (or the exception leaves the function)", fsite.node, nontrivial=bool(checked))
 
 
 def _is_export_rva(ctx, f, text):
@@ -3007,7 +3157,11 @@ def _entry_selection(cn, poly):
             if cn.unlocated_parse(a):
                 return None
             continue
-        k = _c(c.value.slice) if isinstance(c, ast.Attribute) and isinstance(c.value, ast.Subscript) and not isinstance(c.value.slice, ast.Slice) else None
+        k = None
+        if isinstance(c, ast.Attribute) and isinstance(c.value, ast.Subscript) and not isinstance(c.value.slice, ast.Slice):
+            k = _c(c.value.slice)
+            if k is None and _poly(_CountNorm().visit(copy.deepcopy(c.value.slice))) == SymPoly.atom(_NSEC) - SymPoly.const(1):
+                k = -1  # T[len(T) - 1] is T[-1]
         if type(k) is int and _whole_table(c.value.value):
             sel.add((k, c.attr))
         else:
